@@ -53,10 +53,28 @@ LitSet(il) ==
 
 Amounts(L) == { Num(ng, s) : ng \in BOOLEAN, s \in PatSet(L, PatNames \ {"zeros"}) }
 
+(* strings offered as they are (class, text): zero-padded amounts, the literal syntaxes of Go/C,
+   exponents, signs, blanks, lone dots, words *)
+Raw(cls, str) == [op |-> "raw", cls |-> cls, s |-> str]
+Ints == {"0", "1", "7", "8", "9", "10", "12", "100", "777", "2010", "18446744073709551616"}
+RawCases ==
+  { Raw("leadzero", sg \o z \o i \o f) :
+      sg \in {"", "-", "+"}, z \in {"0", "00", "000"}, i \in Ints, f \in {"", ".5", ".50", ".000000000000000001"} }
+  \cup { Raw("plain", sg \o i \o f) : sg \in {"", "-"}, i \in Ints, f \in {"", ".5", ".50"} }
+  \cup { Raw("radix", str) : str \in {"0x10", "0X1f", "0x", "0xg", "-0x10", "0b11", "0B1", "0b2", "0o17", "0O7", "0o8", "0x1p4", "0x.8p1"} }
+  \cup { Raw("separator", str) : str \in {"1_000", "1_0.5", "_1", "1_", "0_1", "1,000", "1'000"} }
+  \cup { Raw("exponent", str) : str \in {"1e3", "1E3", "1e+3", "1e-3", "1.5e1", "12e-2", "1e0", "1e18", "1e-18", "-2.5e2", "00e1", "1e", "e3", "1e+", "1.e2", ".5e1"} }
+  \cup { Raw("binexp", str) : str \in {"1p3", "1P3", "1p-1", "3p0", "1.5p1"} }
+  \cup { Raw("sign", str) : str \in {"-", "+", "+1", "-0", "+0", "-0.0", "--1", "+-1", "-+1", "1-", "1+1"} }
+  \cup { Raw("blank", str) : str \in {" 1", "1 ", "1 0", " ", "- 1", "1. 5"} }
+  \cup { Raw("dots", str) : str \in {".5", "5.", ".", "-.5", "1.2.3", "1..2", "..", "-."} }
+  \cup { Raw("word", str) : str \in {"Inf", "inf", "-Inf", "+inf", "Infinity", "infinity", "NaN", "nan", "abc", "0a", "1f", "1d"} }
+
 Seeds == { [op |-> "seed", fam |-> "small", first |-> a] : a \in 0..9 }
          \cup { [op |-> "seed", fam |-> "parse", il |-> il] : il \in IntLens }
          \cup { [op |-> "seed", fam |-> "num", L |-> L] : L \in NumLens }
          \cup { [op |-> "seed", fam |-> "special"] }
+         \cup { [op |-> "seed", fam |-> "raw"] }
 
 NumCases(n) == { [op |-> "num", neg |-> n.neg, d |-> n.d] }
                \cup { [op |-> "rescale", neg |-> n.neg, d |-> n.d, dec |-> k] : k \in Decs }
@@ -67,6 +85,7 @@ CasesOf(s) ==
              ng \in BOOLEAN, d \in {x \in SmallDigits : (x = <<>> /\ s.first = 0) \/ (x # <<>> /\ x[1] = s.first)} }
     [] s.fam = "parse" -> LitSet(s.il)
     [] s.fam = "num" -> UNION { NumCases(n) : n \in Amounts(s.L) }
+    [] s.fam = "raw" -> RawCases
     [] s.fam = "special" -> UNION { NumCases(Num(ng, d)) : ng \in BOOLEAN, d \in Specials }
 
 Init == phase = 0 /\ c \in Seeds
@@ -108,10 +127,21 @@ ParseTheorems(l) ==
 Theorems == phase = 1 =>
   CASE c.op = "small" -> SmallTheorems([neg |-> c.neg, d |-> c.d])
     [] c.op = "parse" -> ParseTheorems(c)
+    [] c.op = "raw" -> TRUE
     [] c.op = "num" -> BigTheorems([neg |-> c.neg, d |-> c.d])
     [] c.op = "rescale" -> LET n == [neg |-> c.neg, d |-> c.d] IN
                            /\ ToErc20(ToLedger(n, c.dec), c.dec) = n
                            /\ (c.dec = 18 => ToErc20(n, 18) = n /\ ToLedger(n, 18) = n)
+
+(* the reading of strings: leading zeros are insignificant, exponents shift, the rest is no amount *)
+Codes(ds) == [i \in 1..Len(ds) |-> ds[i] + 48]
+ASSUME LET l == ReadLiteral(<<48, 49, 48, 48>>) IN l.ok /\ Denoted(l).n = Parse([neg |-> FALSE, int |-> <<1, 0, 0>>, frac |-> <<>>, dot |-> FALSE], 18)
+ASSUME \A z \in 0..3 : \A i \in {<<1>>, <<7, 7, 7>>, <<8>>} :
+         LET l == ReadLiteral(Codes(Zeros(z) \o i)) IN l.ok /\ Denoted(l).n.d = i \o Zeros(18)
+ASSUME LET l == ReadLiteral(<<49, 101, 45, 51>>) IN l.ok /\ Denoted(l).n.d = <<1>> \o Zeros(15) /\ Denoted(l).inScope    \* 1e-3
+ASSUME ~ReadLiteral(<<48, 120, 49, 48>>).ok /\ ~ReadLiteral(<<49, 95, 48>>).ok /\ ~ReadLiteral(<<49, 112, 51>>).ok     \* 0x10 1_0 1p3
+ASSUME ~ReadLiteral(<<73, 110, 102>>).ok /\ ~ReadLiteral(<<45>>).ok /\ ~ReadLiteral(<<32, 49>>).ok /\ ~ReadLiteral(<<46>>).ok
+ASSUME ~Denoted(ReadLiteral(<<49, 101, 45, 49, 57>>)).inScope                                                       \* 1e-19
 
 Dump == (phase = 1 /\ c.op # "small") => PrintT(<<"CASE", ToJson(c)>>)
 =============================================================================
